@@ -371,6 +371,13 @@ type ExecOpts struct {
 	IgnorePanic bool                // paths ending in a no-return call are not counted
 	MaxPaths    int
 	Watch       types.Object // optional: record the expression this local holds when a target executes
+	Record      bool         // record, per complete path, the ordered target hits (ExecResult.Traces)
+}
+
+// Hit is one target execution on a path.
+type Hit struct {
+	Target int
+	Val    string // canonical value of Watch at that moment ("" when not watching)
 }
 
 // ExecResult: per target, whether some / every feasible complete path executes it.
@@ -379,6 +386,7 @@ type ExecResult struct {
 	Paths     int
 	Overflow  bool
 	Vals      []map[string]bool // per target: canonical expressions held by Watch when the target executed
+	Traces    [][]Hit           // with Record: target hits of every complete path, in order
 }
 
 func (r ExecResult) Tri(i int) Tri { return Decide3(r.May[i], r.Must[i]) }
@@ -399,8 +407,12 @@ func (g *Graph) Exec(from Loc, targets []Loc, leaf Leaf, o ExecOpts) ExecResult 
 	for i := range hitAll {
 		hitAll[i] = true
 	}
+	var trace []Hit
 	complete := func(hit []bool) {
 		res.Paths++
+		if o.Record {
+			res.Traces = append(res.Traces, append([]Hit(nil), trace...))
+		}
 		for i := range targets {
 			if hit[i] {
 				res.May[i] = true
@@ -424,6 +436,9 @@ func (g *Graph) Exec(from Loc, targets []Loc, leaf Leaf, o ExecOpts) ExecResult 
 				}
 			}
 			for ti, t := range targets {
+				if t.B == b && t.I == i && o.Record && o.Watch == nil {
+					trace = append(trace, Hit{Target: ti})
+				}
 				if t.B == b && t.I == i && o.Watch != nil {
 					val := "?"
 					if e, ok := st[o.Watch]; ok && e != nil {
@@ -435,6 +450,9 @@ func (g *Graph) Exec(from Loc, targets []Loc, leaf Leaf, o ExecOpts) ExecResult 
 						res.Vals[ti] = map[string]bool{}
 					}
 					res.Vals[ti][val] = true
+					if o.Record {
+						trace = append(trace, Hit{Target: ti, Val: val})
+					}
 				}
 			}
 			g.storeEffect(b.Nodes[i], st)
@@ -472,7 +490,9 @@ func (g *Graph) Exec(from Loc, targets []Loc, leaf Leaf, o ExecOpts) ExecResult 
 			}
 			hit2 := append([]bool(nil), hit...)
 			onPath[s] = true
+			tl := len(trace)
 			walk(s, 0, st2, hit2, onPath)
+			trace = trace[:tl]
 			delete(onPath, s)
 		}
 		if len(b.Succs) == 1 {
@@ -512,6 +532,10 @@ func (g *Graph) storeEffect(n ast.Node, st map[types.Object]ast.Expr) {
 		}
 		v, ok := obj.(*types.Var)
 		if !ok || v.IsField() || (v.Pkg() != nil && v.Parent() == v.Pkg().Scope()) {
+			return
+		}
+		if g.Fn.ClosureMutated(obj) {
+			st[obj] = nil
 			return
 		}
 		if rhs != nil {
@@ -701,7 +725,11 @@ func (b *Binder) Leaf(e ast.Expr, st Store) Tri {
 		}
 		if be.Op == token.EQL || be.Op == token.NEQ {
 			var v Tri = U
-			if a, ok := b.Eq[x+"|"+y]; ok {
+			if x == y || (x == "zero" && y == "nil") || (x == "nil" && y == "zero") {
+				v = T
+			}
+			if v == T {
+			} else if a, ok := b.Eq[x+"|"+y]; ok {
 				v = FromBool(b.Row[a] == "T")
 			} else if a, ok := b.Eq[y+"|"+x]; ok {
 				v = FromBool(b.Row[a] == "T")
